@@ -1,6 +1,20 @@
 """Process-parallel map for CPU-bound drivers (fork; deterministic: results in input order)."""
 import multiprocessing
 import os
+import traceback
+
+
+class WorkerError(RuntimeError):
+    """a driver function raised in a worker process (machinery failure, exit code 2)"""
+
+
+def _guard(arg):
+    func, x = arg
+    try:
+        return ('ok', func(x))
+    except BaseException as e:  # pylint: disable=broad-except
+        # a worker that dies silently would leave Pool.map waiting forever: everything comes back as a value
+        return ('err', '%s: %s\n%s' % (type(e).__name__, e, traceback.format_exc()[-1500:]))
 
 
 def pmap(func, items, workers=None):
@@ -10,4 +24,8 @@ def pmap(func, items, workers=None):
         return [func(x) for x in items]
     ctx = multiprocessing.get_context('fork')
     with ctx.Pool(workers) as pool:
-        return pool.map(func, items, chunksize=max(1, len(items) // (workers * 8)))
+        res = pool.map(_guard, [(func, x) for x in items], chunksize=max(1, len(items) // (workers * 8)))
+    bad = [r[1] for r in res if r[0] != 'ok']
+    if bad:
+        raise WorkerError('%d driver call(s) failed in worker processes; first:\n%s' % (len(bad), bad[0]))
+    return [r[1] for r in res]
